@@ -109,8 +109,11 @@ fn run_until(sim: &mut Sim, kind: &str, k: usize) -> bool {
             let grow_to = GROW_TO.load(std::sync::atomic::Ordering::SeqCst);
             if idle > 3 && grow_to > 0 && sim.world.peers.iter().any(|p| p.connected && p.height < grow_to) {
                 let ids: Vec<usize> = sim.world.peers.iter().filter(|p| p.connected && p.height < grow_to).map(|p| p.id).collect();
+                // block by block: the client follows the tip in "latest" mode and check points
+                // become final behind it
                 for id in ids {
-                    sim.set_view(id, 0, grow_to, true);
+                    let h = sim.world.peer(id).height + 1;
+                    sim.set_view(id, 0, h, true);
                 }
                 idle = 0;
                 continue;
@@ -524,6 +527,17 @@ pub(crate) fn run(opts: &Opts, report: &mut Report) {
             };
             for m in crate::verif::mutate::structural(&Proto::Filter, &honest_msg.data) {
                 muts.push((format!("structural:{}", m.label.split('[').next().unwrap_or("")), m.label.clone(), m.data));
+            }
+            // the growing world repeats what the static worlds cover up to the point where the
+            // growth starts: quick tier = the messages after that point and the mutant classes
+            // that are about positions (thorough: everything)
+            if case.grow_from.is_some() && !thorough {
+                if honest_start <= case.grow_from.unwrap_or(0) {
+                    continue;
+                }
+                muts.retain(|(class, _, _)| {
+                    ["all:=blocks-one-or-two-intervals-lower", "start-number-shifted", "extra:authentic-next", "drop-last-hash-only", "swap-neighbouring-filters"].contains(&class.as_str())
+                });
             }
             for (mi, (class, label, data)) in muts.iter().enumerate() {
                 if mi % SLICES != slice || data == &honest_msg.data {
